@@ -294,6 +294,39 @@ func (m *MClaims) BuildSetters() (psatoken.IClaims, error) {
 	if err != nil {
 		return nil, err
 	}
+	return c, m.applySetters(c)
+}
+
+// BuildSettersAfter realises m through the setters on an object on which an
+// EARLIER valid value (prev, same profile) was set first: every claim is set
+// twice, usually with different lengths / texts; only claims m also has are
+// taken from prev, so the final content is exactly m.
+func (m *MClaims) BuildSettersAfter(prev *MClaims) (psatoken.IClaims, error) {
+	c, err := psatoken.NewClaims(m.Prof.Name())
+	if err != nil {
+		return nil, err
+	}
+	pm := prev.Clone()
+	if m.BootSeed == nil {
+		pm.BootSeed = nil
+	}
+	if m.CertRef == nil {
+		pm.CertRef = nil
+	}
+	if m.VSI == nil {
+		pm.VSI = nil
+	}
+	if m.Prof == P2 && len(pm.Comps) == 0 {
+		pm.Comps = m.Comps
+	}
+	pm.Profile = sp(m.Prof.Name())
+	if err := pm.applySetters(c); err != nil {
+		return nil, fmt.Errorf("earlier value: %w", err)
+	}
+	return c, m.applySetters(c)
+}
+
+func (m *MClaims) applySetters(c psatoken.IClaims) error {
 	steps := []func() error{
 		func() error { return c.SetClientID(*m.ClientID) },
 		func() error { return c.SetSecurityLifeCycle(*m.Lifecycle) },
@@ -330,11 +363,11 @@ func (m *MClaims) BuildSetters() (psatoken.IClaims, error) {
 	}
 	for i, s := range steps {
 		if err := s(); err != nil {
-			return nil, fmt.Errorf("setter step %d: %w", i, err)
+			return fmt.Errorf("setter step %d: %w", i, err)
 		}
 	}
 	if m.Prof == P1 && m.Profile == nil {
 		c.(*psatoken.P1Claims).Profile = nil
 	}
-	return c, nil
+	return nil
 }
